@@ -721,8 +721,8 @@ VARIANTS = [
       '    state = self.call(\n        lazy_output_q.enqueue_from_iterator(lazy_iterable),\n        return_exception=True,\n        return_immediately=True,\n    )\n    await asyncio.wrap_future(state)',
       'R-C16-11'),
     B('producer-registered-after-a-sleep', 'utils/iter_utils.py',
-      '      iterator = aiter(iterator)\n    self._start_enqueue()',
-      '      iterator = aiter(iterator)\n    await asyncio.sleep(0)\n    self._start_enqueue()', 'R-C16-11'),
+      '    self._start_enqueue()\n    try:\n      if isinstance(iterator, Awaitable):',
+      '    await asyncio.sleep(0)\n    self._start_enqueue()\n    try:\n      if isinstance(iterator, Awaitable):', 'R-C16-11'),
     OK('remote-start-state-kept', 'utils/courier_utils.py',
        '    _ = self.call(\n        lazy_output_q.enqueue_from_iterator(lazy_iterable),',
        '    start_state = self.call(\n        lazy_output_q.enqueue_from_iterator(lazy_iterable),'),
